@@ -74,6 +74,10 @@ def Blocks.ext (b : Blocks) : Nat → Nat → Val := fun i j =>
   if i < b.nr then (if j < b.nc then b.body i j else b.insCols i (j - b.nc))
   else (if j < b.nc then b.insRows (i - b.nr) j else b.inter (i - b.nr) (j - b.nc))
 
+/-- assembled vector of a strand's sums: base values, then the subtotal values -/
+def strandExt (v : Nat → Val) (n : Nat) (subs : List Subtotal) : Nat → Val :=
+  fun i => if i < n then v i else Stripe.sumVal v (subAt subs (i - n))
+
 namespace ShareSpec
 
 /-- total of row `i` of the assembled table `E` over the `nc` BASE columns (nansum) -/
